@@ -82,7 +82,12 @@ def main(module):
     if mode == "run":
         tier, seed = sys.argv[2], int(sys.argv[3])
         random.seed(seed)
-        res = module.run(tier, seed)
+        real_stdout = sys.stdout
+        sys.stdout = sys.stderr          # whatever the library prints must not mix with the JSON result
+        try:
+            res = module.run(tier, seed)
+        finally:
+            sys.stdout = real_stdout
         json.dump(res, sys.stdout, default=str)
         return 0
     if mode == "replay":
